@@ -50,6 +50,7 @@ def gsrfs_calls(r):
                 cur["solves"].append([e[1], e[3], None])
             elif e[0] == "gstrs_out" and cur["solves"] and cur["solves"][-1][2] is None:
                 cur["solves"][-1][2] = e[2]
+                cur["solves"][-1].append(e[1])        # info left by the real dgstrs
             elif e[0] == "gsrfs_out":
                 cur["info"] = e[1]
             elif e[0] == "gsrfs_X1":
@@ -203,8 +204,12 @@ def coq_expr(c, r, call):
 
 
 def compare(c, r, call, val):
-    outs, asked, rest = val
+    outs, asked, rest, infos = val
     dis = []
+    real_infos = [s[3] if len(s) > 3 else None for s in call["solves"]]
+    k = min(len(infos), len(real_infos))
+    if list(infos)[:k] != real_infos[:k]:
+        dis.append("dgstrs info codes: model %s real %s" % (list(infos), real_infos))
     n = c["n"]
     if len(outs) != call["nrhs"]:
         return ["model handles %d right-hand sides, real %d" % (len(outs), call["nrhs"])]
@@ -280,7 +285,7 @@ def eval_batch(ctx, p, exe, cases, tag, ienv=None):
         r = byid.get(c["id"])
         if not r or not r.get("complete"):
             continue
-        real_conj = (c["trans"] == 2 and c["stype"] == 0 and not ll.is_cx(p))
+        real_conj = False      # since the fix of F3 (s/dgstrs accept CONJ) real CONJ is checked like TRANS, NC and NR
         calls = gsrfs_calls(r)
         for ci, call in enumerate(calls):
             if "X1" not in call or "B" not in call or "X0" not in call:
@@ -318,7 +323,8 @@ def eval_batch(ctx, p, exe, cases, tag, ienv=None):
                 " direct ?gsrfs" if call["direct"] else "", msg),
                 {"kind": "ssvx", "prec": p, "case": c, "ienv": ienv, "failure": slug},
                 key={"class": slug, "arith": "complex" if ll.is_cx(p) else "real",
-                     "op": (c12.TRANS_NAME[c["trans"]] if not call["direct"] else c12.TRANS_NAME[call["trans"]]) if ll.is_cx(p) else "any"})
+                     "op": (c12.TRANS_NAME[c["trans"]] if not call["direct"] else c12.TRANS_NAME[call["trans"]]) if ll.is_cx(p) else "any",
+                     "storage": "NC" if c["stype"] == 0 else "NR"})
         if p == "d":
             dis = compare(c, r, call, vals[vi]); vi += 1
             nsol = len(call["solves"])
@@ -354,7 +360,7 @@ def run(ctx):
         "ferr_estimator_partial: 'FERR x slack dominates the true error' is decided by the oracle only (no guaranteed ratio for Hager's estimator)",
         "berr_small: 'berr = O((n+1)eps) for cond < 1/sqrt(eps)' (Skeel) is not proved; oracle only",
         "dgstrs is abstract in the model (recorded outputs replayed); s/c/z: oracle only",
-        "real CONJ: excluded from the oracle (finding F3 of C07: dgstrs rejects CONJ)",
+        "row-wise storage with complex CONJ is solved as A**T X = B by p{c,z}gssvx (known finding F21)",
     ]
     ctx.coq_properties()
     lib, fl = ctx.build_lib("hooks")
@@ -366,8 +372,8 @@ def run(ctx):
             if f.endswith(".json"):
                 replay(ctx, json.load(open(os.path.join(cdir, f))), quiet=True)
     small_ienv = "3,2,4,200,100,-50,-50,-30"
-    plan = [("d", 36 if q else 400, None), ("d", 12 if q else 150, small_ienv),
-            ("z", 12 if q else 100, None), ("s", 12 if q else 120, None), ("c", 8 if q else 80, small_ienv)]
+    plan = [("d", 60 if q else 400, None), ("d", 30 if q else 200, small_ienv),
+            ("z", 16 if q else 100, None), ("s", 24 if q else 160, None), ("c", 12 if q else 80, small_ienv)]
     for i, (p, cnt, ienv) in enumerate(plan):
         cases = gen_cases(ctx, p, cnt)
         for c in cases:
